@@ -96,6 +96,7 @@ def main(argv=None):
     tier = argv[1] if len(argv) > 1 else os.environ.get("VERIF_TIER", "quick")
     if tier not in ("quick", "thorough"):
         tier = "quick"
+    os.environ.setdefault("VERIF_TASK_BUDGET", "900" if tier == "quick" else "5400")
     t0 = time.time()
     from symx.harness import load_repo, REPO
     load_repo()
